@@ -15,6 +15,7 @@ vars == <<phase, o, k>>
 
 HFD == 5   \* a user-supplied handle lives on descriptor 5
 FFD == 6   \* a user-supplied FILE lives on descriptor 6
+DEADFD == 29   \* a descriptor number that is NOT open (and that the library's own descriptors never reach under the limit of 32)
 HFDH == 1050   \* ... or, in a crowded caller, on descriptor 1050
 PATHS == "/d/f"
 Extras == <<<<HFD, 0, Name(HFD)>>, <<FFD, 0, Name(FFD)>>, <<9, 0, Name(9)>>, <<11, 1, Name(11)>>, <<30, 0, Name(30)>>, <<31, 0, Name(31)>>>>   \* 31 = the highest descriptor the limit (32) permits
@@ -54,6 +55,8 @@ WiringPoints ==
   \cup {Opt(<<R(T_PIPE, 0, 0, ""), b, c>>, NoSh, 2, FALSE, TRUE) : b \in {U, R(T_PARENT, 0, 0, "")}, c \in {U, R(T_STDOUT, 0, 0, "")}}
   \* many inherited descriptors
   \cup {Opt(<<U, U, U>>, NoSh, -1, FALSE, TRUE) @@ [many |-> TRUE], Opt(<<PIPE3, PIPE3, PIPE3>>, NoSh, -1, FALSE, TRUE) @@ [many |-> TRUE]}
+  \* a handle / a FILE whose descriptor is not open (closed underneath a stale FILE object): an unusable target, for any stream
+  \cup {Opt([<<U, U, U>> EXCEPT ![s] = r], NoSh, -1, FALSE, TRUE) : s \in 1..3, r \in {R(T_FILE, 0, DEADFD, ""), R(T_HANDLE, DEADFD, 0, ""), R(T_DEFAULT, 0, DEADFD, "")}}
   \* a caller whose descriptor table is full below 1040: every descriptor the library creates, and the handle the caller
   \* supplies, has a number beyond what a select-style descriptor set can hold
   \cup {Opt(<<PIPE3, PIPE3, PIPE3>>, NoSh, -1, FALSE, TRUE) @@ [many |-> TRUE, high |-> TRUE],
@@ -163,6 +166,7 @@ Init == phase = "pick" /\ o \in Points /\ k \in {[std |-> s, hasInput |-> FALSE]
 \* a user handle / FILE that names one of the parent's descriptors 1, 2 while that descriptor is closed: an unusable target
 DeadTarget(eff) == \E s \in 1..3 : (eff[s].t = T_HANDLE /\ eff[s].h \in {1, 2} /\ ~k.std[eff[s].h + 1])
                                      \/ (eff[s].t = T_FILE /\ FdOf(eff[s].f) \in {0, 1, 2} /\ ~k.std[FdOf(eff[s].f) + 1])
+                                     \/ (eff[s].t = T_HANDLE /\ eff[s].h = DEADFD) \/ (eff[s].t = T_FILE /\ FdOf(eff[s].f) = DEADFD)
 EBADF == -9
 
 RJ(r) == <<r.t, r.h, r.f, r.p>>
